@@ -87,6 +87,7 @@ PROPERTIES["C04"] = dict(
         _c04("c04_s0_i0_f0", Q, "(0,0,0|-)", timeout=300),
         _c04("c04_s2_i0_f0", T, "(2,0,0|-)"),
         _c04("c04_s2_i0_f1", Q, "(2,0,1|-)"),
+        _c04("c04_s2_i0_f2", Q, "(2,0,2|-)"),
         _c04("c04_s3_i0_f0", Q, "(3,0,0|-)"),
         _c04("c04_s3_i1_f0", T, "(3,1,0|-)"),
         _c04("c04_s3_i0_f1", T, "(3,0,1|-)"),
